@@ -124,11 +124,18 @@ Proof. vm_compute. discriminate. Qed.
    of the grammar below, any depth, any length (proofs/PrecedenceGeneral.v)
 
      query   := query orx | orx            orx := orx OR andx | andx        andx := andx AND operand | operand
-     operand := NOT operand | TERM : operand | postfix
+     operand := NOT operand | + operand | - operand | TERM : operand | postfix
      postfix := postfix ^force | TERM | PHRASE | REGEX | TERM~d | PHRASE~n | ( query )
+              | TO | < value | <= value | > value | >= value          value := TERM | PHRASE
 
-   `ptree` is that grammar as a datatype, `fl` its yield, `wfb` the level discipline (and that the
-   numerals after ~ and ^ are numbers).  NOT covered: see the end of this file. *)
+   `ptree` is that grammar as a datatype, `fl` its yield, `wfb` the level discipline, that the numerals
+   after ~ and ^ are numbers, and the one restriction: in `query orx` the orx does not START with `+`,
+   `-` or the word TO (`signed`).  NOT covered (no theorem here; still validated by harness/c03.py):
+     * such a signed phrase following another phrase by juxtaposition (`a +b`, `+a +b`): after an AND/OR
+       chain that is F4 (`a AND b -c`, refuted in C03.v); elsewhere the trees agree but the driver goes
+       through states this proof does not follow;
+     * ranges `[a TO b]`, `{a TO b}`;
+     * the converse direction (inputs the documented grammar rejects are rejected by the driver). *)
 Definition C03c_grammar_trees_statement : Prop :=
   forall p toks ev0, wfb p = true -> map tok_key toks = map tok_key (fl p) ->
     exists t evs,
@@ -185,12 +192,42 @@ Definition ex_gen_tree : ptree :=
 Example C03c_trees_nonvacuous :
   snd (lex ex_gen) = None /\ wfb ex_gen_tree = true /\ fl ex_gen_tree = fst (lex ex_gen) /\
   length (fst (lex ex_gen)) = 27.
-Proof. repeat split; vm_compute; reflexivity. Qed.
+Proof.
+  split; [vm_compute; reflexivity|]. split; [vm_compute; reflexivity|].
+  split; vm_compute; reflexivity.
+Qed.
+
+(* signs, TO as a word and open ranges where they are covered:  +a AND -b OR NOT +c (TO <=5) f:>x *)
+Definition ex_sign : str :=
+  [43;97;32;65;78;68;32;45;98;32;79;82;32;78;79;84;32;43;99;32;40;84;79;32;60;61;53;41;32;102;58;62;120]%N.
+Definition ex_sign_tree : ptree :=
+  let k i := nth i (fst (lex ex_sign)) (mkTok T_EOF [] 0 [] []) in
+  PJuxt
+    (PJuxt
+       (POr (PAnd (PSign (k 0) (PAtom (k 1))) (k 2) (PSign (k 3) (PAtom (k 4)))) (k 5)
+            (PNot (k 6) (PSign (k 7) (PAtom (k 8)))))
+       (PGroup (k 9) (PJuxt (PTo (k 10)) (POpen (k 11) (k 12))) (k 13)))
+    (PField (k 14) (k 15) (POpen (k 16) (k 17))).
+
+Example C03c_trees_nonvacuous_signs :
+  snd (lex ex_sign) = None /\ wfb ex_sign_tree = true /\ fl ex_sign_tree = fst (lex ex_sign) /\
+  exists t, parse ex_sign = Some (Ok t) /\ erase t = val ex_sign_tree.
+Proof.
+  split; [vm_compute; reflexivity|]. split; [vm_compute; reflexivity|].
+  split; [vm_compute; reflexivity|]. eexists. split; vm_compute; reflexivity.
+Qed.
+
+(* the restriction is what keeps F4 out: the only tree shapes whose yield is `a AND b -c` are refused *)
+Example C03c_trees_refuse_f4 :
+  let k i := nth i (fst (lex [97;32;65;78;68;32;98;32;45;99]%N)) (mkTok T_EOF [] 0 [] []) in
+  wfb (PJuxt (PAnd (PAtom (k 0)) (k 1) (PAtom (k 2))) (PSign (k 3) (PAtom (k 4)))) = false /\
+  wfb (PAnd (PAtom (k 0)) (k 1) (PJuxt (PAtom (k 2)) (PSign (k 3) (PAtom (k 4))))) = false.
+Proof. split; vm_compute; reflexivity. Qed.
 
 Example C03c_trees_nonvacuous_result :
   exists t, parse ex_gen = Some (Ok t) /\ erase t = val ex_gen_tree /\
             spec_parse (map tok_key (fst (lex ex_gen))) = Some (erase t).
-Proof. eexists. repeat split; vm_compute; reflexivity. Qed.
+Proof. eexists. split; [vm_compute; reflexivity|]. split; vm_compute; reflexivity. Qed.
 
 Print Assumptions C03c_precedence.
 Print Assumptions C03c_precedence_parse.
